@@ -954,6 +954,14 @@ def cases(tier, seed):
     for name, depth in sims.items():
         for seq in sim_sequences(depth):
             out.append({"kind": "sim", "sim": name, "seq": seq})
+    # the library's free energy is the potential of its stress: sigma = d psi / d eps at fixed internal variables, at every state reached
+    # by the letter paths of depth 2 (3D behaviours; one per combination of the mechanisms that store energy)
+    psi_cfgs = [dict(_DEFAULT_MP, **d) for d in (
+        {}, {"kinematic": "Chaboche2"}, {"hardening": "Voce"}, {"branches": "one"}, {"branches": "two", "kinematic": "Prager"},
+        {"branches": "two", "rate": "Norton"}, {"branches": "one", "yield": "none", "hardening": "none"}, {"yield": "HillAniso", "branches": "one"})]
+    for c in psi_cfgs:
+        if accepted(c):
+            out.append({"kind": "psi", **c})
     return out
 
 
@@ -1038,7 +1046,64 @@ def run_materialpoint(case):
             "transitions": ncalls, "states": len(E)}
 
 
+def run_psi(case):
+    cfg = {k: case[k] for k in FACTORS}
+    lay = Layout(cfg)
+    beh = build_behavior(cfg, "auto")
+    L, lnames = letters("3D")
+    stats = new_stats()
+    dt = time_step(cfg)
+    v, obs = [], []
+    f_eps, f_z, f_names = np.zeros((1, 6)), np.zeros((1, lay.n)), [[]]
+    h = 1e-4 * EPS_Y
+    ntr = 0
+    flowed = False
+    for depth in (1, 2):
+        eps = (f_eps[:, None, :] + L[None]).reshape(-1, 6)
+        zold = np.repeat(f_z, len(L), axis=0)
+        names = [p + [x] for p in f_names for x in lnames]
+        sig, _, z, ok, raised, _ = integrate(beh, eps, zold, dt, stats)
+        good = ok & ~raised
+        ntr += len(eps)
+        gi = np.nonzero(good)[0]
+        if not len(gi):
+            break
+        e, zz = eps[gi], z[gi]
+        flowed = flowed or bool(lay.n and np.abs(zz).max() > 0)
+        # central differences of Compute_psi in the 6 Kelvin directions, internal variables held fixed
+        dpsi = np.zeros((len(gi), 6))
+        for i in range(6):
+            d = np.zeros(6)
+            d[i] = h
+            pp = np.array(beh.Compute_psi(_fe(e + d), _fe(zz)))[:, 0]
+            pm = np.array(beh.Compute_psi(_fe(e - d), _fe(zz)))[:, 0]
+            dpsi[:, i] = (pp - pm) / (2 * h)
+        s_lib = np.array(beh.Compute_sigma(_fe(e), _fe(zz)))[:, 0]
+        ntr += 13
+        sc = np.maximum(np.abs(s_lib).max(axis=1), SIGMA_Y)
+        err = np.abs(dpsi - s_lib).max(axis=1) / sc
+        obs.append(np.round(s_lib / SIGMA_Y, 6))
+        j = int(np.argmax(err))
+        if err[j] > 1e-6:
+            v.append(viol("stress_potential", f"sigma differs from d psi / d eps (library's own Compute_psi, internal variables fixed) by {err[j]:.3e} (relative to "
+                                              f"max(|sigma|, sigma_y)) [path {'>'.join(names[gi[j]])}; depth {depth}]", **cfg_key(cfg)))
+            break
+        # returned stress of the step == Compute_sigma of the returned state
+        e2 = np.abs(sig[gi] - s_lib).max(axis=1) / sc
+        if e2.max() > 1e-9:
+            j = int(np.argmax(e2))
+            v.append(viol("stress_of_state", f"stress returned by Integrate differs from Compute_sigma(eps, z_returned) by {e2[j]:.3e} [path {'>'.join(names[gi[j]])}]", **cfg_key(cfg)))
+            break
+        rows = np.round(np.hstack([e / EPS_Y, zz / EPS_Y]), 7) + 0.0
+        _, first_idx = np.unique(rows, axis=0, return_index=True)
+        keep = np.sort(first_idx)
+        f_eps, f_z, f_names = e[keep], zz[keep], [names[gi[i]] for i in keep]
+    return {"violations": v, "fingerprint": fp("psi", cfg, *obs), "nontrivial": flowed or not lay.n, "transitions": ntr, "outcome": "ok" if not v else "violation"}
+
+
 def run_case(case):
+    if case["kind"] == "psi":
+        return run_psi(case)
     if case["kind"] == "mp":
         import warnings
 
